@@ -1163,6 +1163,184 @@ def r11_no_undocumented_failure(ctx, C):
     ctx.floor("rows-without-documented-failure", n, 25)
 
 
+def r13_const_expressions(ctx, F):
+    """constants used as immediates (`push.A`, `mem_load.A`, ...) are defined by arithmetic expressions over + - * / // and
+    parentheses (docs/src/user_docs/assembly/code_organization.md, "Constants"). The parser's shunting-yard core
+    (`build_postfix_expression` followed by `evaluate_postfix_expression`) is interpreted on every token sequence of 2..4
+    symbolic operands joined by the five operators, without parentheses and with one parenthesised pair, the tokenizer
+    replaced by the token list and `compute_statement` by an uninterpreted binary node: the tree it builds must be the tree
+    of the usual reading (`* / //` bind tighter than `+ -`, equal precedence associates to the left, parentheses first).
+    `compute_statement` itself is interpreted per operator on symbolic operands: + - * are the field operations, both
+    divisions refuse a zero divisor. Not decided: the tokenizer (`OperationIterator::next`), number parsing."""
+    import itertools
+    from .mirsym import Interp, Agg, Ptr, Opaque, deref, Unanalysable, PanicReached, enumerate_paths
+    C = r"^miden_assembly::ast::parsers::constants::"
+    f_build, f_eval, f_comp = F.fn(C + "build_postfix_expression$"), F.fn(C + "evaluate_postfix_expression$"), F.fn(C + "compute_statement$")
+    op_adt = F.adt(C + "Operation$")
+    variants = [v["name"] for v in op_adt["variants"]]
+    SYM = {"+": "Add", "-": "Sub", "*": "Mul", "/": "FeltDiv", "//": "IntDiv", "(": "LPar", ")": "RPar"}
+    for v in SYM.values():
+        if v not in variants:
+            ctx.violation("ANCHOR-LOST|const-expr|%s" % v, f_build.loc(), "Operation::%s not found" % v)
+            return
+    PREC = {"+": 1, "-": 1, "*": 2, "/": 2, "//": 2}
+
+    def mk(tok):
+        if tok in SYM:
+            return Agg([], "adt", op_adt["id"], SYM[tok])
+        return Agg([Poly.var(tok)], "adt", op_adt["id"], "Value")
+
+    def reference(tokens):
+        """precedence climbing, left associative"""
+        pos = [0]
+
+        def atom():
+            t = tokens[pos[0]]
+            pos[0] += 1
+            if t == "(":
+                e = expr(1)
+                pos[0] += 1          # ')'
+                return e
+            return t
+
+        def expr(minp):
+            lhs = atom()
+            while pos[0] < len(tokens) and tokens[pos[0]] in PREC and PREC[tokens[pos[0]]] >= minp:
+                o = tokens[pos[0]]
+                pos[0] += 1
+                rhs = expr(PREC[o] + 1)
+                lhs = (SYM[o], lhs, rhs)
+            return lhs
+        return expr(1)
+
+    def tree(v):
+        v = deref(v)
+        if isinstance(v, Term) and v.op == "cexpr":
+            return (v.args[0], tree(v.args[1]), tree(v.args[2]))
+        return repr(v)
+
+    def run_one(tokens):
+        I = Interp(F)
+        procmodel.install_field(I)
+        queue = [mk(t) for t in tokens]
+        ok = lambda x: Agg([x], "adt", "core::result::Result", "Ok")
+        some = lambda x: Agg([x], "adt", "core::option::Option", "Some")
+        none = Agg([], "adt", "core::option::Option", "None")
+        I.overrides.insert(0, (re.compile(r"constants::OperationIterator::new$"), lambda I_, a, f: Opaque("token-iterator")))
+        I.overrides.insert(0, (re.compile(r"constants::OperationIterator::next$"), lambda I_, a, f: ok(some(queue.pop(0))) if queue else ok(none)))
+        I.overrides.insert(0, (re.compile(r"constants::compute_statement$"), lambda I_, a, f: ok(Term("cexpr", deref(a[3]).variant, deref(a[1]), deref(a[2])))))
+        post = I.call(f_build.id, [Ptr([Opaque("token")], 0), Opaque("expression"), Ptr([Opaque("constants")], 0)])
+        post = deref(post)
+        if not (isinstance(post, Agg) and post.variant == "Ok"):
+            return ("error", repr(post))
+        res = deref(I.call(f_eval.id, [Ptr([Opaque("token")], 0), Opaque("expression"), post.items[0]]))
+        if not (isinstance(res, Agg) and res.variant == "Ok"):
+            return ("error", repr(res))
+        return tree(res.items[0])
+
+    ops = ["+", "-", "*", "/", "//"]
+    shapes = []
+    for n in (2, 3, 4):
+        for combo in itertools.product(ops, repeat=n - 1):
+            toks = []
+            for i in range(n):
+                toks.append("v%d" % i)
+                if i < n - 1:
+                    toks.append(combo[i])
+            shapes.append(toks)
+            if n >= 3:
+                for g in range(n - 1):           # parenthesise operands g, g+1
+                    t2 = []
+                    for i in range(n):
+                        if i == g:
+                            t2.append("(")
+                        t2.append("v%d" % i)
+                        if i == g + 1:
+                            t2.append(")")
+                        if i < n - 1:
+                            t2.append(combo[i])
+                    shapes.append(t2)
+    # nested parentheses and a parenthesised triple
+    shapes += [["(", "(", "v0", "-", "v1", ")", "*", "v2", ")", "-", "v3"], ["v0", "-", "(", "v1", "-", "v2", "*", "v3", ")"],
+               ["v0", "*", "(", "v1", "+", "v2", "-", "v3", ")"], ["(", "v0", ")"], ["v0"]]
+    n_bad = 0
+    for toks in shapes:
+        text = "".join(toks)
+        ctx.inst(key="const-expr|" + text, nontrivial=len(toks) > 3)
+        try:
+            got = run_one(toks)
+        except (Unanalysable, PanicReached) as e:
+            ctx.violation("UNANALYSABLE|const-expr|" + text, f_build.loc(), str(e)[:300])
+            return
+        want = reference(list(toks))
+        if isinstance(want, str):
+            want = repr(Poly.var(want))
+        else:
+            def conv(t):
+                return repr(Poly.var(t)) if isinstance(t, str) else (t[0], conv(t[1]), conv(t[2]))
+            want = conv(want)
+        def value(t):
+            """the tree's value as a field polynomial; a division is an atom named by the values of its operands"""
+            if not isinstance(t, tuple):
+                return Poly.var(t)
+            if t[0] == "error":
+                return None
+            l, r = value(t[1]), value(t[2])
+            if l is None or r is None:
+                return None
+            if t[0] == "Add":
+                return l + r
+            if t[0] == "Sub":
+                return l - r
+            if t[0] == "Mul":
+                return l * r
+            return Poly.var("%s[%r,%r]" % (t[0], l, r))
+        gv = value(got)
+        good = gv is not None and gv == value(want)
+        ctx.oblig(good)
+        if not good:
+            n_bad += 1
+            if n_bad <= 6:
+                ctx.violation("const-expr|" + text, f_build.loc(),
+                              "the constant expression `%s` is evaluated as %s; the documented operators (* / // before + -, equal precedence left to right, parentheses first) give %s: "
+                              "an instruction using such a constant as immediate pushes / addresses a different value" % (text, got, want))
+    ctx.floor("const-expr-shapes", len(shapes), 500)
+    # compute_statement per operator
+    a, b = Poly.var("a"), Poly.var("b")
+    expect = {"Add": a + b, "Sub": a - b, "Mul": a * b}
+
+    def comp(name, x, y):
+        I = Interp(F)
+        procmodel.install_field(I)
+        I.overrides.insert(0, (re.compile(r"errors::ParsingError::\w+$"), lambda I_, a_, f_: Opaque("parsing-error")))
+        return deref(I.call(f_comp.id, [Ptr([Opaque("token")], 0), x, y, Ptr([Agg([], "adt", op_adt["id"], name)], 0)]))
+    for name in ("Add", "Sub", "Mul", "FeltDiv", "IntDiv"):
+        ctx.inst(key="const-op|" + name, nontrivial=True)
+        try:
+            if name in expect:
+                res = comp(name, a, b)
+                good = res.variant == "Ok" and deref(res.items[0]) == expect[name]
+                ctx.oblig(good)
+                if not good:
+                    ctx.violation("const-op|" + name, f_comp.loc(), "constant operator %s computes %r, expected %s" % (name, res, expect[name]))
+                continue
+            res = comp(name, a, Poly.const(0))
+            good = res.variant == "Err"
+            ctx.oblig(good)
+            if not good:
+                ctx.violation("const-op|%s|zero-divisor" % name, f_comp.loc(), "constant operator %s does not refuse a zero divisor: %r" % (name, res))
+            if name == "IntDiv":
+                for x, y in ((12, 3), (13, 3), (2, 5), (7, 7)):
+                    res = comp(name, Poly.const(x), Poly.const(y))
+                    v = deref(res.items[0]) if res.variant == "Ok" else None
+                    good = isinstance(v, Poly) and v.const_value() == x // y
+                    ctx.oblig(good)
+                    if not good:
+                        ctx.violation("const-op|IntDiv|value", f_comp.loc(), "%d // %d evaluates to %r" % (x, y, res))
+        except (Unanalysable, PanicReached) as e:
+            ctx.violation("UNANALYSABLE|const-op|" + name, f_comp.loc(), str(e)[:300])
+
+
 def run(ctx, F):
     ctx.trusted += ["rustc MIR via mirfacts", "mirsym; lowering extractor (vlib/lowering.py); operation model (vlib/procmodel.py)",
                     "docs/src/user_docs/assembly tables as oracle (parsed at run time); family formulas and FAILING/RANGES tables transcribed from the same docs"]
@@ -1181,5 +1359,6 @@ def run(ctx, F):
     ctx.run_rule("C05-R10", "pow2 (all 64 exponents), is_odd and the quadratic-extension instructions: composed results equal the definitions in F_p[x]/(x^2 - x + 2) and the documented formulas; ext2inv/ext2div return the verified inverse in the documented coefficient order", r10_field_semantics, C)
     ctx.run_rule("C05-R11", "an instruction whose reference row documents no failing case has no feasible failing path in its composed lowering", r11_no_undocumented_failure, C)
     ctx.run_rule("C05-R6", "minimum stack depth: shift_left pops/decrements only when depth > 16; depth writers confined", r6_min_depth, F)
+    ctx.run_rule("C05-R13", "constant expressions used as immediates: the parser's shunting-yard core, interpreted on every sequence of 2..4 symbolic operands over + - * / // with and without a parenthesised pair, builds the tree of the documented reading (precedence, left associativity, parentheses); + - * are the field operations and both divisions refuse a zero divisor", r13_const_expressions, F)
     from . import rules_c09
     ctx.run_rule("C05-R12", "with the default host the hint-assisted instructions fail only in their documented cases: the advice injectors behind u32clz/ctz/clo/cto, ilog2, ext2inv / ext2div and the u64 division push the defined values for every valid operand and refuse only the documented ones (= C09-R6)", rules_c09.r6_honest_injectors, F)
